@@ -4,7 +4,7 @@
 cd "$(dirname "$0")/.."
 [ -x harness/target/debug/rvh ] || ./setup.sh >/dev/null 2>&1
 ids=$(python3 -c "import json; print(' '.join(c['property_id'] for c in json.load(open('MANIFEST.json'))['checks']))")
-extra="C02 C04 C05 C06 C08 C15 C16"
+extra=""
 for seed in "$@"; do
   for id in $ids $extra; do
     out=$(VERIF_SEED=$seed ./check $id 2>&1 | grep -v KNOWN-FINDING | tail -2 | tr '\n' ' ')
